@@ -165,12 +165,13 @@ func (i *inspect) addIndexes(t *schema.Table, rows *sql.Rows) error {
 
 var (
 	// A regexp to extract index parts.
-	reIdxParts = regexp.MustCompile("(?i)ON\\s+[\"`]*(?:\\w+)[\"`]*\\s*\\((.+?)\\)(\\s*WHERE\\s+.+)?$")
+	reIdxParts = regexp.MustCompile("(?is)ON\\s+[\"`]*(?:\\w+)[\"`]*\\s*\\((.+?)\\)(?:\\s+|--[^\\n]*(?:\\n|$)|/\\*.*?\\*/)*(WHERE\\s+.+)?$")
 	reIdxDesc  = regexp.MustCompile("(?i)\\s+DESC\\s*$")
 	// A regexp to extract the predicate of a partial index: the WHERE keyword (in any
-	// case) follows the closing parenthesis of the index parts. Searching for "WHERE"
-	// alone also matches identifiers that contain it, and misses a lower-case keyword.
-	reIdxWhere = regexp.MustCompile("(?is)\\)\\s*WHERE\\b(.+)$")
+	// case) follows the closing parenthesis of the index parts, possibly after comments.
+	// Searching for "WHERE" alone also matches identifiers that contain it, and misses
+	// a lower-case keyword.
+	reIdxWhere = regexp.MustCompile("(?is)\\)(?:\\s+|--[^\\n]*(?:\\n|$)|/\\*.*?\\*/)*WHERE\\b(.+)$")
 )
 
 func (i *inspect) indexInfo(ctx context.Context, t *schema.Table, idx *schema.Index) error {
